@@ -193,6 +193,72 @@ def _task(task):
                                                                                            "tier": task.get("tier", "quick"), "reparse": attempt_no},
                                     note=f"parse #{attempt_no} of the same raw packet object: {why}")
                         break
+            # streams: the verdict belongs to each packet on its own (a clean packet after a bad one is clean, and the other way round)
+            import itertools
+            fam = []  # (label, packet, reference outcome)
+            pre = prefix(2 if uses_len else 0)
+            probe = docs.packet_for(i, (pre + "0110" * 100)[:400])
+            o = decode_packet(doc, probe)
+            if o.kind == "parsed" and (o.consumed - 48) % 8 == 0 and o.consumed > 48:
+                nbytes = (o.consumed - 48) // 8
+                for lab, nb in (("exact", nbytes), ("longer", nbytes + 2), ("shorter", max(1, nbytes - 1))):
+                    pk = docs.packet_for(i, (pre + "0110" * 100)[:8 * nb], seqcount=len(fam))
+                    w_ = decode_packet(doc, pk)
+                    if w_.kind != "unspecified":
+                        fam.append((lab, pk, w_))
+            for n in (2, 3):
+                for seq in itertools.product(range(len(fam)), repeat=n):
+                    if len(set(seq)) < 2:
+                        continue
+                    stream = b"".join(fam[j][1] for j in seq)
+                    for pb in (True, False):
+                        got = []
+                        g = defn.packet_generator(stream, parse_bad_pkts=pb)
+                        while True:
+                            with observed_warnings() as w:
+                                try:
+                                    p_ = next(g)
+                                except StopIteration:
+                                    break
+                                except Exception as e:  # noqa: BLE001
+                                    got.append(("raised", type(e).__name__, 0))
+                                    break
+                            got.append(("item", bytes(p_.raw_data), len(w)))
+                            if len(got) > 6:
+                                break
+                        t.evals += 1
+                        why = None
+                        k = 0
+                        for j in seq:
+                            lab, pk, w_ = fam[j]
+                            clean = w_.kind == "parsed" and w_.consumed == 8 * len(pk)
+                            if k < len(got) and got[k][0] == "raised":
+                                if clean:
+                                    why = f"packet #{k} ({lab}) is well formed and exactly consumed but the generator raised {got[k][1]}"
+                                break
+                            if not clean and not pb:
+                                continue  # withheld: nothing to see
+                            if k >= len(got):
+                                why = f"packet ({lab}) missing from the output"
+                                break
+                            if got[k][1] != pk:
+                                why = f"output item #{k} is not the {lab} packet"
+                                break
+                            if pb and clean and got[k][2]:
+                                why = f"clean packet at position {k} was delivered with a warning (stream {[fam[x][0] for x in seq]})"
+                                break
+                            if pb and not clean and not got[k][2]:
+                                why = f"{lab} packet at position {k} was delivered without a warning (stream {[fam[x][0] for x in seq]})"
+                                break
+                            k += 1
+                        else:
+                            if k < len(got):
+                                why = f"{len(got) - k} extra item(s)"
+                        t.outcomes["stream:" + ("ok" if not why else "bad")] += 1
+                        if why:
+                            t.violation({"kind": "stream-accounting", "parse_bad_pkts": pb}, {"layout": i, "layout_name": name, "stream": [fam[x][0] for x in seq],
+                                                                                              "packet": stream.hex(), "parse_bad_pkts": pb, "via": via,
+                                                                                              "tier": task.get("tier", "quick"), "streamcase": True}, note=why)
         t.programs += 1
     if 0 in task["layouts"]:
         t.sample({"layout": ls[7][0], "LEN": "0..5", "data_lengths": "1..required+3", "fills": ["00", "FF", "41"], "parse_bad_pkts": [True, False]})
@@ -208,7 +274,8 @@ def run(ctx):
         "exhaustive": True,
         "bound": (f"{n} layouts ({'with the thorough-only alignment/field-kind variants; ' if not ctx.quick else ''}fixed: u8,u16 / u3,u13 / f32 / str16 / bin12,u4 / s64 / u16le,u8; length dependent: LEN+BLOB 8*LEN+{{0,8,-8}}, "
                   "rest-of-packet 8*PKT_LEN-{8,16,64}+TAIL, dynamic string, unaligned variants, float after dynamic blob, calibrated length, bit-granular length) "
-                  f"x LEN 0..{5 if ctx.quick else 9} x every data length 1..required+{3 if ctx.quick else 6} bytes x {3 if ctx.quick else 4} fills x parse_bad_pkts {{T,F}}, from XML and from objects"),
+                  f"x LEN 0..{5 if ctx.quick else 9} x every data length 1..required+{3 if ctx.quick else 6} bytes x {3 if ctx.quick else 4} fills x parse_bad_pkts {{T,F}}, from XML and from objects; "
+                  "per layout every stream of 2..3 packets over {exactly consumed, 2 bytes longer, 1 byte shorter} with warnings attributed per next() call"),
         "rule": "one evaluation = one single-packet generator run; distinct non-trivial = distinct (layout, LEN) pairs swept over all lengths",
     }
     return {"level": LEVEL, "tally": tally, "coverage": coverage,
@@ -218,6 +285,8 @@ def run(ctx):
 
 def replay(case):
     t = _task({"layouts": [case["layout"]], "via": case.get("via", "xml"), "tier": case.get("tier", "quick")})
+    if case.get("streamcase"):
+        return next((v for v in t.violations if v["case"].get("streamcase") and v["case"]["packet"] == case["packet"] and v["case"]["parse_bad_pkts"] == case["parse_bad_pkts"]), None)
     if "reparse" in case:
         return next((v for v in t.violations if v["case"].get("reparse") and v["case"]["packet"] == case["packet"]), None)
     for v in t.violations:
